@@ -1,3 +1,13 @@
 import GoImap.Props.C12
+#print axioms GoImap.C12.refines
+#print axioms GoImap.C12.mirror
+#print axioms GoImap.C12.routing
+#print axioms GoImap.C12.complete_once
+#print axioms GoImap.C12.reply_status
+#print axioms GoImap.C12.isolation
+#print axioms GoImap.C12.usable
+#print axioms GoImap.C12.selected_has_mailbox
 #print axioms GoImap.C12.legacy_flags_counterexample
+#print axioms GoImap.C12.legacy_flush_counterexample
 #print axioms GoImap.C12.legacy_select_counterexample
+#print axioms GoImap.C12.legacy_close_counterexample
